@@ -209,7 +209,9 @@ def compactify_sites(prog: Program, rep: Report) -> None:
             ok = guarded and prog.effective_owners(fi.qual) == {f"{prog.role_module['output']}.{prog.role_class['output']}.write"}
             rep.check(rule, fi.qual, f"call site `{short(c)}`", ok, what_bad="the state is compactified outside the sparse branch of Output.write: under the dense layout values are written at [time, row index], which equals pid only while no row is ever removed - after a death every later particle lands in the wrong pid column", what_ok="only under the sparse layout", loc=fi.loc(c))
     if n == 0:
-        raise AnalysisError("no call to state.compactify found (Output.write expected)")
+        # nothing ever removes the dead from the state: every later sparse record still holds them
+        out = prog.role_func("output", "write")
+        rep.bad(rule, out.qual, "state.compactify() under the sparse layout", "no function of the package compactifies the state: a particle that has died stays in the state and is written into every later sparse record", out.loc())
 
 
 def create_rules(prog: Program, rep: Report) -> None:
@@ -381,6 +383,11 @@ def run(prog: Program, rep: Report, tier: str) -> None:
     c07.trip_count_rule(prog, sub)
     for o in sub.obligations:
         rep.add("R06.8", o.func, f"[{o.rule}] {o.construct}", o.verdict == "ok" if o.verdict != "undecided" else None, o.what, o.loc)
+    from ..share import share
+
+    share(prog, rep, "C08", ("R08.2",), "R06.10", "a restart keeps the particle dimension aligned with the identifiers used so far", 0)
+    share(prog, rep, "C13", ("R13.1", "R13.2"), "R06.11", "the clock behind the time coordinate advances by dt per step in the direction of the run", 6)
+
 
 
 from ..selftest import Mut  # noqa: E402
